@@ -52,6 +52,12 @@ func (k *checker) tolerated(e error) bool {
 	case k.longExemplar && strings.Contains(e.Error(), "exemplar labels have") && strings.Contains(e.Error(), "exceeding the limit"):
 		// Prometheus' documented 128 rune limit: the exemplar cannot be attached
 		return true
+	case k.p.obsFail && errors.Is(e, errCallback):
+		// the collaborator's own failure, passed on by the reader
+		return true
+	case k.p.unrep && (strings.Contains(e.Error(), "is not valid UTF-8") || strings.Contains(e.Error(), "is not a valid label name")):
+		// client_golang's refusal of a label the case made unrepresentable on purpose
+		return true
 	}
 	return false
 }
